@@ -4,7 +4,7 @@
 # 2. applies the patch to /repo, runs the quick checks, reverts, prints a summary line per check
 set -u
 DEMO_FLAGS="${DEMO_FLAGS:-}"; [ -z "$DEMO_FLAGS" ] && [ -f "$1/demo_flags" ] && DEMO_FLAGS=$(cat "$1/demo_flags")
-SRC="$1"; ID="$2"; shift 2; CHECKS="$*"
+SRC="$(realpath "$1")"; ID="$2"; shift 2; CHECKS="$*"
 export GOFLAGS=-mod=mod GOPROXY=off GOSUMDB=off GOTOOLCHAIN=local
 # base: the newest commit of /repo on which the patch applies (seeded changes were written against the HEAD of their day;
 # later fix: commits may touch the same lines)
